@@ -4,7 +4,7 @@ from . import gen as G
 from . import spec as S
 
 VERIF = G.VERIF
-GEN_DIR = os.path.join(VERIF, 'gen')
+GEN_DIR = os.environ.get('VP_GEN') or os.path.join(VERIF, 'gen')
 CACHE_DIR = os.path.join(VERIF, '.cache')
 VERUS = os.environ.get('VP_VERUS', 'verus')
 MULTI_ERR = 40
